@@ -180,7 +180,7 @@ def variants(st: Stream, prog: Dict[str, Any], n_variants: int) -> List[Tuple[Di
         case = dict(prog)
         sl = SLICES[(v + st.below(len(SLICES))) % len(SLICES)] if v else st.choice(SLICES)
         if st.chance(1, 8):
-            sl = st.choice((4, 5, 16, 100, 2 ** 40))
+            sl = st.choice((4, 5, 16, 100, 2 ** 40, 2 ** 64 - 1))
         if sl is not None:
             case["slice"] = sl
         ncalls = 1 if st.chance(1, 2) else 2 + st.below(3)
